@@ -23,7 +23,7 @@ CmpVerdict(e) ==
      \o Clause("closer_agrees_with_xor_distance", e.closer = (c = 1) /\ e.closerr = (c = -1))
 
 Verdict(e) == CASE e.op \in {"prox", "proxrand"} -> ProxVerdict(e)
-                [] e.op \in {"cmp", "cmprand"}   -> CmpVerdict(e)
+                [] e.op \in {"cmp", "cmprand", "cmpk"} -> CmpVerdict(e)
                 [] OTHER -> <<>>
 
 TInit == l = 1 /\ bad = <<>>
